@@ -29,6 +29,7 @@ ASSUMPTIONS = [
     "particle file layout after RAMSES backup_part: ncpu, ndim, npart, five further header records of arbitrary length, then one record per descriptor column",
     "sort keys are columns with unique values (ties would make the permutation ambiguous)",
     "sink CSV numbers are compared after parsing the text the writer produced (10 significant digits)",
+    "with an explicit cpu_list the files may be concatenated in the listed or in ascending rank order",
 ]
 REAL_STUB = {
     "real": ["osyris.io PartReader, SinkReader, Loader", "unit library / config", "Datagroup.sortby"],
